@@ -196,6 +196,7 @@ def armsStep (toks : List String) : String :=
           withArms (checked line (run o) t.cls) (okTag "op:lim" (run o) ++ t.tags ++ probes lenses run o)
         | _ => line
       else line
+  | "deco" :: _ => withArms line ["op:deco" ++ (if line.startsWith "ok" then ":ok" else ":err")]
   | ["srt", name, hex] => armsStepS name generousOpts hex line "op:srt"
   | ["sdec", name, opts, hex] =>
     match pOpts opts with
@@ -225,7 +226,14 @@ def armsStep (toks : List String) : String :=
         let r := decDV o drvCap true drvFuel 0 b
         let run := fun o' => clsM (decDV o' drvCap true drvFuel 0 b)
         let vt := match r with | .ok v _ => dvTags v | _ => []
-        withArms (checked line (clsM r) t.cls) (okTag "op:dec" (clsM r) ++ t.tags ++ probes lenses run o ++ vt)
+        -- decode side: picosecond bits announced without their timestamp bit (read, then dropped)
+        let mt := match r, b with
+          | .ok _ _, m :: _ =>
+            (if m / 16 % 2 = 1 ∧ m / 4 % 2 = 0 then ["dec:dv-srcPs-bit-without-ts-bit"] else [])
+            ++ (if m / 32 % 2 = 1 ∧ m / 8 % 2 = 0 then ["dec:dv-srvPs-bit-without-ts-bit"] else [])
+            ++ (if m ≥ 64 then ["dec:dv-unknown-mask-bits"] else [])
+          | _, _ => []
+        withArms (checked line (clsM r) t.cls) (okTag "op:dec" (clsM r) ++ t.tags ++ probes lenses run o ++ vt ++ mt)
       else if ty = "DiagnosticInfo" then
         let t := T.decDI o drvCap true drvFuel 0 b
         let r := decDI o drvCap true drvFuel 0 b
